@@ -10,8 +10,9 @@
                        decode to e(counter).  spec_bufs B file lens: file[0:B], file[n1:n1+B], file[n1+n2:...], ...
      Model/Layout.v    build (copybook entry -> JSON schema), nav_of (LocationMaker.from_instance from offset 0),
                        nav_name / nav_index (NDNav.name / NDNav.index), locations (LArr start size item_size count ...).
-     Model/OdoStream.v row_loop / rows_N / rows_V / rows_VB: COBOL_EBCDIC_Sheet.set_schema + row_iter over the RECFM
-                       readers of Model/Recfm.v; a row = (buffer handed to Row(), navigator built on it).
+     Model/OdoStream.v row_loop / rows_N / rows_V / rows_VB / rows_F: COBOL_EBCDIC_Sheet.set_schema + row_iter over the RECFM
+                       readers of Model/Recfm.v; a row = (buffer handed to Row(), navigator built on it); the lrecl
+                       argument is what the caller passed to COBOL_EBCDIC_File (None, Some 0, Some n).
    [dcount] (decoding of a counter field) and the element type of records are arbitrary.
    The flat family is proved completely, file framing included (theorems C06_stream_N, _V, _VB, _F).  The general nested shapes (ODO tables
    inside non-repeated groups, sibling groups, next to REDEFINES unions) have the layout theorem C06_layout at the end of
@@ -93,49 +94,50 @@ Theorem C06_stream_N_any_buffer : forall (A : Type) (dcount : list A -> nat) (B 
 Proof. exact (@stream_N_any_buffer). Qed.
 Print Assumptions C06_stream_N_any_buffer.
 
-(* The same through set_schema (any positive lrecl, which RECFM_N ignores) and rows(), with the buffer size and the
-   refill expression class read from the current source (Gen/RecfmParams.v). *)
-Theorem C06_stream_N : forall (A : Type) (dcount : list A -> nat) (kind : N) (lrecl : nat) (t : item)
+(* The same through set_schema and rows(), with the buffer size and the refill expression class read from the current
+   source (Gen/RecfmParams.v), for ANY lrecl argument: None (what the docstring of COBOL_EBCDIC_File asks for with an
+   OCCURS DEPENDING ON layout), 0, or any number (RECFM_N ignores it). *)
+Theorem C06_stream_N : forall (A : Type) (dcount : list A -> nat) (kind : N) (lrecl : option nat) (t : item)
     (es : list env) (rs : list (list A)),
-  0 < lrecl -> flat_odo t = true ->
+  flat_odo t = true ->
   Forall2 (fun e r => length r = extent e t /\ counters_hold dcount e t r) es rs ->
   legal_N (N.to_nat buffer_size) rs = true ->
   exists rows s',
-    rows_N dcount kind (Some lrecl) (build t) (write_N rs) = Ok (rows, Done, s')
+    rows_N dcount kind lrecl (build t) (write_N rs) = Ok (rows, Done, s')
     /\ map (@row_buf A) rows = spec_bufs (N.to_nat buffer_size) (write_N rs) (map (@length A) rs)
     /\ heads (map (@length A) rs) (map (@row_buf A) rows) = rs
     /\ Forall2 (fun rw r => nav_of dcount r (build t) = Ok (row_nav rw)) rows rs
     /\ Forall2 (fun rw e => lend (n_loc (row_nav rw)) = extent e t) rows es
     /\ buf s' = [] /\ rest s' = [].
-Proof. exact (@stream_N). Qed.
+Proof. exact (@stream_N_any_lrecl). Qed.
 Print Assumptions C06_stream_N.
 
-(* RECFM V: the reader delivers exactly the records (C05_V); each row's navigator is the walk on its record. *)
-Theorem C06_stream_V : forall (dcount : list N -> nat) (kind : N) (lrecl : nat) (t : item)
+(* RECFM V: the reader delivers exactly the records (C05_V); each row's navigator is the walk on its record.  Any lrecl. *)
+Theorem C06_stream_V : forall (dcount : list N -> nat) (kind : N) (lrecl : option nat) (t : item)
     (es : list env) (rs : list (list N)),
-  0 < lrecl -> flat_odo t = true ->
+  flat_odo t = true ->
   Forall2 (fun e r => length r = extent e t /\ counters_hold dcount e t r) es rs ->
   legal_V rs = true ->
   exists rows,
-    rows_V dcount kind (Some lrecl) (build t) (write_V rs) = Ok (rows, Done)
+    rows_V dcount kind lrecl (build t) (write_V rs) = Ok (rows, Done)
     /\ map (@row_buf N) rows = rs
     /\ Forall2 (fun rw r => nav_of dcount r (build t) = Ok (row_nav rw)) rows rs
     /\ Forall2 (fun rw e => lend (n_loc (row_nav rw)) = extent e t) rows es.
-Proof. exact stream_V. Qed.
+Proof. exact stream_V_any_lrecl. Qed.
 Print Assumptions C06_stream_V.
 
-(* RECFM VB: every legal blocking of the records (C05_VB). *)
-Theorem C06_stream_VB : forall (dcount : list N -> nat) (kind : N) (lrecl : nat) (t : item)
+(* RECFM VB: every legal blocking of the records (C05_VB).  Any lrecl. *)
+Theorem C06_stream_VB : forall (dcount : list N -> nat) (kind : N) (lrecl : option nat) (t : item)
     (ess : list (list env)) (blocks : list (list (list N))),
-  0 < lrecl -> flat_odo t = true ->
+  flat_odo t = true ->
   Forall2 (Forall2 (fun e r => length r = extent e t /\ counters_hold dcount e t r)) ess blocks ->
   legal_VB blocks = true ->
   exists rows,
-    rows_VB dcount kind (Some lrecl) (build t) (write_VB blocks) = Ok (rows, Done)
+    rows_VB dcount kind lrecl (build t) (write_VB blocks) = Ok (rows, Done)
     /\ map (@row_buf N) rows = concat blocks
     /\ Forall2 (fun rw r => nav_of dcount r (build t) = Ok (row_nav rw)) rows (concat blocks)
     /\ Forall2 (fun rw e => lend (n_loc (row_nav rw)) = extent e t) rows (concat ess).
-Proof. exact stream_VB. Qed.
+Proof. exact stream_VB_any_lrecl. Qed.
 Print Assumptions C06_stream_VB.
 
 (* RECFM F / FB: the variable-length records stored in a fixed-length file, every record followed by padding up to the
@@ -155,15 +157,36 @@ Theorem C06_stream_F : forall (dcount : list N -> nat) (kind : N) (lrecl : nat) 
 Proof. exact stream_F. Qed.
 Print Assumptions C06_stream_F.
 
-(* Known finding 1 (K-odo-lrecl-none): the docstring of COBOL_EBCDIC_File says to pass lrecl=None for OCCURS
-   DEPENDING ON layouts; set_schema then asks LocationMaker.from_schema() for the length, which raises ValueError
-   for every schema holding an ODO table: no row is delivered, whatever the file. *)
-Theorem C06_refuted_1 : forall (A : Type) (dcount : list A -> nat) (kind : N) (t : item) (file : list A),
-  js_has_odo (build t) = true ->
-  rows_N dcount kind None (build t) file = Err ValueError
-  /\ rows_N dcount kind (Some 0) (build t) file = Err ValueError.
-Proof. exact (@lrecl_none_refuted). Qed.
-Print Assumptions C06_refuted_1.
+(* lrecl None (or 0) with an OCCURS DEPENDING ON layout, any schema s holding such a table and any file (fix 64e9f81;
+   the rule is read from workbook.COBOL_EBCDIC_Sheet.set_schema into Gen/LayoutParams.v): from_schema() cannot compute a
+   record length, set_schema keeps None, and RECFM N, V and VB - which never use the length - deliver exactly what they
+   deliver with any positive lrecl; RECFM F has nothing to cut the file with and raises TypeError when the first row is
+   asked for, before any row is delivered. *)
+Theorem C06_lrecl_none : forall (dcount : list N -> nat) (kind : N) (lrecl : option nat) (n : nat) (s : js) (file : list N),
+  lrecl = None \/ lrecl = Some 0 -> js_has_odo s = true ->
+  rows_N dcount kind lrecl s file = rows_N dcount kind (Some (S n)) s file
+  /\ rows_V dcount kind lrecl s file = rows_V dcount kind (Some (S n)) s file
+  /\ rows_VB dcount kind lrecl s file = rows_VB dcount kind (Some (S n)) s file
+  /\ rows_F dcount kind lrecl s file = Ok ([], Raised TypeError).
+Proof. exact lrecl_none_bytes. Qed.
+Print Assumptions C06_lrecl_none.
+
+(* RECFM N over any element type *)
+Theorem C06_lrecl_none_N : forall (A : Type) (dcount : list A -> nat) (kind : N) (lrecl : option nat) (n : nat) (s : js)
+    (file : list A),
+  lrecl = None \/ lrecl = Some 0 -> js_has_odo s = true ->
+  rows_N dcount kind lrecl s file = rows_N dcount kind (Some (S n)) s file.
+Proof. exact (@lrecl_none_N). Qed.
+Print Assumptions C06_lrecl_none_N.
+
+(* What fix 64e9f81 repaired (finding K-odo-lrecl-none): without the try around from_schema() - no exception caught -
+   set_schema itself raises ValueError for every schema holding an ODO table, so no row is delivered whatever the
+   file and the reader (rows_N / rows_V / rows_VB / rows_F all start with set_schema). *)
+Theorem C06_lrecl_none_old_refuted : forall (A : Type) (dcount : list A -> nat) (s : js),
+  js_has_odo s = true ->
+  set_schema_with dcount [] 0 None s = Err ValueError /\ set_schema_with dcount [] 0 (Some 0) s = Err ValueError.
+Proof. exact (@set_schema_old_refuted). Qed.
+Print Assumptions C06_lrecl_none_old_refuted.
 
 (* What fix fdac88e repaired, seen through the row loop: with the refill of the original tree (mode 1:
    read(K - used)) records are lost.  K = 8, three records of 5 elements (counter 1, one occurrence). *)
